@@ -862,3 +862,35 @@ CONTRACTS[PA + 'PauliMonomial.as_polynomial'] = dict(
     ensures=['rows(result.gs) == 1', 'cols(result.gs) == len(self.g)', 'len(result.ps) == 1', 'len(result.cs) == 1',
              'forall(c_, 0, len(self.g), result.gs[0][c_] == self.g[c_])', 'same(result.gs[0], self.g)', 'result.ps[0] == self.p', 'result.cs[0] == self.c'],
     modifies=[], returns=POLY)
+
+# ------------------------------------------------------------------ C11: the named gates are the textbook Cliffords
+# table rows = images of X, Z of the gate's qubit (string (x, z), sign 0 = +, 2 = -), written down from the property statement:
+#   H swaps X and Z;  S sends X to Y and keeps Z;  a Pauli gate flips the sign of the Paulis it anticommutes with
+GATE_NAMED = {'cls': 'CliffordGate', 'fields': {'n': 'int', 'generator': 'none', 'forward_map': CMAP, 'backward_map': 'none'}}
+_named = {'H': ([[0, 1], [1, 0]], [0, 0]), 'S': ([[1, 1], [0, 1]], [0, 0]),
+          'X': ([[1, 0], [0, 1]], [0, 2]), 'Y': ([[1, 0], [0, 1]], [2, 2]), 'Z': ([[1, 0], [0, 1]], [2, 0])}
+
+
+def _table_post(gs, ps):
+    n = len(gs)
+    out = ['rows(result.forward_map.gs) == %d' % n, 'cols(result.forward_map.gs) == %d' % n, 'len(result.forward_map.ps) == %d' % n]
+    out += ['result.forward_map.gs[%d][%d] == %d' % (i, j, gs[i][j]) for i in range(n) for j in range(n)]
+    out += ['result.forward_map.ps[%d] == %d' % (i, ps[i]) for i in range(n)]
+    return out
+
+
+for _nm, (_gs, _ps) in _named.items():
+    CONTRACTS[CI + _nm + '#1'] = dict(
+        params=[('qubits', ('varargs', ['int']))], requires=[],
+        ensures=['result.n == 1', 'result.qubits[0] == qubits[0]'] + _table_post(_gs, _ps),
+        modifies=[], returns=GATE_NAMED)
+# CNOT with control c and target t sends X_c to X_c X_t and Z_t to Z_c Z_t (X_t, Z_c unchanged); the table is written in the order of
+# ASCENDING qubit index (that is how the gate is applied through mask()), so the two orientations have different tables
+_cnot_ct = ([[1, 0, 1, 0], [0, 1, 0, 0], [0, 0, 1, 0], [0, 1, 0, 1]], [0, 0, 0, 0])      # rows X_c Z_c X_t Z_t, columns (c, t)
+_cnot_tc = ([[1, 0, 0, 0], [0, 1, 0, 1], [1, 0, 1, 0], [0, 0, 0, 1]], [0, 0, 0, 0])      # rows X_t Z_t X_c Z_c, columns (t, c)
+CONTRACTS[CI + 'CNOT#2'] = dict(
+    params=[('qubits', ('varargs', ['int', 'int']))], requires=['qubits[0] != qubits[1]'],
+    ensures=['result.n == 2', 'result.qubits[0] == qubits[0]', 'result.qubits[1] == qubits[1]'] +
+            ['implies(qubits[0] < qubits[1], %s)' % e for e in _table_post(*_cnot_ct)] +
+            ['implies(qubits[0] > qubits[1], %s)' % e for e in _table_post(*_cnot_tc)],
+    modifies=[], returns=GATE_NAMED)
